@@ -54,7 +54,10 @@ type Case struct {
 	// bytes after the end of the response, "whole" = ONE segment)
 	Early []int `json:"early,omitempty"`
 	// full-duplex family: nothing is tampered with; both endpoints read and write at once
-	Duplex *o4pair.DuplexOpts `json:"duplex,omitempty"` // the caller keeps calling Read after the first error: so many more error-returning Reads
+	Duplex *o4pair.DuplexOpts `json:"duplex,omitempty"`
+	// on-path key recovery: every 32-byte window of both public handshake flights is tried as
+	// KEY_SEED against the first real frames; plus the ntor output tie (driver ntor)
+	KeyRec bool `json:"keyrec,omitempty"` // the caller keeps calling Read after the first error: so many more error-returning Reads
 }
 
 type verdict struct {
@@ -167,14 +170,15 @@ func sortedInts(p []int) bool {
 }
 
 type runner struct {
-	d *vlib.Driver
+	d    *vlib.Driver
+	ntor *vlib.Driver // Lean ntor model (C08's driver), for the KEY_SEED/AUTH tie
 }
 
 var workerRunner *runner
 
 func handle(jobJSON []byte, driverBin string) []byte {
 	if workerRunner == nil {
-		workerRunner = &runner{d: o4pair.StartModelDriverAt(driverBin)}
+		workerRunner = &runner{d: o4pair.StartModelDriverAt(driverBin), ntor: o4pair.StartDriverAt(driverBin, "ntor")}
 	}
 	var j Job
 	var o Outcome
@@ -505,6 +509,103 @@ func (x *runner) runHS(c Case, o *Outcome) {
 	}
 }
 
+// runKeyRec: an adversary who only SEES the wire must not be able to derive the frame keys.
+func (x *runner) runKeyRec(c Case, o *Outcome) {
+	pr, err := o4pair.Setup(c.P, o4pair.SetupOpts{Hello: o4pair.Chunker{Kind: "whole"}, Resp: o4pair.Chunker{Kind: "whole"}})
+	if errors.Is(err, o4pair.ErrF2) {
+		o.Skipped = "F2"
+		return
+	}
+	if err != nil {
+		o.V = &verdict{"handshake-failed", err.Error()}
+		return
+	}
+	defer pr.Close()
+	o.Class, o.ErrClass = "on-path-key-recovery", "none"
+	if pr.Keys[0] == nil {
+		o.V = &verdict{"tie-no-link-keys", "cannot derive the link keys of the real connection: " + pr.KeyErr}
+		return
+	}
+	rng := vlib.NewRng(c.P.TapeSeed ^ 0xD1CE)
+	sent := rng.Bytes(64)
+	ws, werr, pan := pr.Write(o4pair.C2S, sent)
+	if pan != nil || werr != nil {
+		if isF2(pan) {
+			o.Skipped = "F2"
+			return
+		}
+		o.V = &verdict{"write-error", fmt.Sprintf("c2s Write(64): %v %v", werr, pan)}
+		return
+	}
+	var first [2][]byte
+	for _, w := range ws {
+		first[o4pair.C2S] = append(first[o4pair.C2S], w...)
+	}
+	first[o4pair.S2C] = pr.PostResp
+	// the oracle's own sanity: the true keys do open those frames
+	for d := 0; d < 2; d++ {
+		if _, ok := o4pair.OpensFirstFrame(pr.Keys[d], first[d]); !ok {
+			o.V = &verdict{"tie-key-recovery-selftest-failed", fmt.Sprintf("the real %s key does not open the first %s frame with the oracle's routine", o4pair.DirName(d), o4pair.DirName(d))}
+			return
+		}
+	}
+	// tie: the real ntor outputs against the Lean ntor model on the same inputs
+	if x.ntor != nil && pr.Ntor.KeySeed != nil {
+		n := pr.Ntor
+		rep := x.ntor.Call("cli %s %s %s %s %s", vlib.Hex(n.XPriv), vlib.Hex(n.X), vlib.Hex(n.Y), vlib.Hex(n.B), vlib.Hex(n.ID))
+		okS := "0"
+		if n.OK {
+			okS = "1"
+		}
+		want := fmt.Sprintf("%s %s %s", okS, vlib.Hex(n.KeySeed), vlib.Hex(n.Auth))
+		if rep != want {
+			o.TieV = &verdict{"tie-ntor-output-differs", fmt.Sprintf("ntor.ClientHandshake on the session's inputs: implementation (ok KEY_SEED AUTH) %q, Lean ntor model %q", want, rep)}
+		} else {
+			o.TieOK++
+		}
+		if bytes.Equal(n.KeySeed, n.Auth) {
+			o.V = &verdict{"session-keys-derivable-from-public-transcript", "KEY_SEED equals AUTH, which the server sends in the clear"}
+		}
+	}
+	hits, tried := o4pair.RecoverKeys(map[string][]byte{"request": pr.HelloWire, "response": pr.RespWire}, first)
+	o.Stats["windows-tried"] = tried
+	if len(hits) > 0 {
+		h := hits[0]
+		field := ""
+		if h.Flight == "response" {
+			switch {
+			case h.Off == 0:
+				field = " = the server's Elligator representative Y'"
+			case h.Off == 32:
+				field = " = the ntor AUTH tag the server sends in the clear"
+			}
+		}
+		// demonstrate: forge a frame with the recovered key and see whether the victim delivers it
+		forged := rng.Bytes(32)
+		pkt := append([]byte{0, 0, byte(len(forged))}, forged...)
+		sh := o4pair.NewShadow(pr.Keys[h.Dir])
+		sh.Feed(first[h.Dir])
+		accepted := "not attempted"
+		if fr, err := o4pair.ForgeFrame(h.Key, len(sh.Frames), pkt); err == nil {
+			wire := first[h.Dir]
+			if h.Dir == o4pair.S2C {
+				wire = nil // the client already consumed the seed frame with the handshake
+			}
+			pr.Deliver(h.Dir, append(append([]byte(nil), wire...), fr...), nil)
+			rd := pr.Reader(h.Dir)
+			rd.Drain(func() int { return 32768 })
+			if bytes.HasSuffix(rd.Got, forged) {
+				accepted = fmt.Sprintf("DELIVERED by the victim's Read (%d forged bytes the peer never sent)", len(forged))
+			} else {
+				accepted = fmt.Sprintf("not delivered (Read: %d bytes, err %v)", len(rd.Got), rd.Err)
+			}
+		}
+		o.V = &verdict{"session-keys-derivable-from-public-transcript", fmt.Sprintf("an on-path observer recovers the frame keys: ntor.Kdf over the 32 bytes at offset %d of the %s flight%s yields a key that opens the %s (%d windows hit in total); a frame forged with it is %s",
+			h.Off, h.Flight, field, h.Opens, len(hits), accepted)}
+		return
+	}
+}
+
 // runDuplex: honest traffic, both directions at once from real goroutines.
 func (x *runner) runDuplex(c Case, o *Outcome) {
 	pr, err := o4pair.Setup(c.P, o4pair.SetupOpts{Hello: o4pair.Chunker{Kind: "whole"}, Resp: o4pair.Chunker{Kind: "whole"}})
@@ -535,6 +636,10 @@ func (x *runner) runDuplex(c Case, o *Outcome) {
 func (x *runner) runCase(c Case, o *Outcome) {
 	if c.Duplex != nil {
 		x.runDuplex(c, o)
+		return
+	}
+	if c.KeyRec {
+		x.runKeyRec(c, o)
 		return
 	}
 	if len(c.Early) > 0 {
@@ -1016,6 +1121,21 @@ func (a *agg) record(o Outcome) {
 		a.noDriver++
 	}
 	// non-trivial: the tampered stream differs from the honest one before its end and reaches the decoder
+	if c.KeyRec {
+		r.Case(caseKey(c), o.Stats["windows-tried"] > 0)
+		r.Count("family", "keyrec")
+		r.Count("key-recovery-windows-tried", fmt.Sprintf("%d00+", o.Stats["windows-tried"]/100))
+		for _, v := range []*verdict{o.V, o.TieV} {
+			if v != nil {
+				kind := "impl-oracle"
+				if strings.HasPrefix(v.Sig, "tie-") {
+					kind = "correspondence"
+				}
+				r.Violate(v.Sig, kind, fmt.Sprintf("[%s] %s", c.Name, v.Desc), c)
+			}
+		}
+		return
+	}
 	if c.Duplex != nil {
 		r.Case(caseKey(c), o.Stats["delivered-c2s"] > 0 && o.Stats["delivered-s2c"] > 0)
 		r.Count("family", "duplex")
@@ -1341,6 +1461,15 @@ func main() {
 			}
 			run(cs)
 		}
+	}
+	// (3d) on-path key recovery from the public transcript + ntor output tie
+	{
+		n := r.Scale(32, 200)
+		cs := make([]Case, n)
+		for i := range cs {
+			cs[i] = Case{Name: fmt.Sprintf("keyrec-%d", i), P: o4pair.RandomParams(rng.Fork(), 0, false), KeyRec: true}
+		}
+		run(cs)
 	}
 	// (3c) full duplex: both endpoints reading and writing simultaneously
 	{
